@@ -316,4 +316,14 @@ theorem wire_roundtrip (payload rest : List Nat) (h : payload.length ≤ SlipVer
 
 example : SlipVerif.Wire6.header 255 = "0000FF".toList ∧ (255 : Nat) ≤ SlipVerif.Wire6.maxMessageSize := by decide
 
+/-- wire_stream_roundtrip: any number of messages (each at most 1 MiB of printed text, counted in bytes)
+    written one after another on one connection are read back in order, and the stream is used up: the
+    header of each message says exactly where the next one starts. -/
+theorem wire_stream_roundtrip (msgs : List (List Nat)) (h : ∀ p ∈ msgs, p.length ≤ SlipVerif.Wire6.maxMessageSize) :
+    SlipVerif.Wire6.readMessages msgs.length (SlipVerif.Wire6.writeAll msgs) = some msgs :=
+  SlipVerif.Wire6.readMessages_writeAll msgs h
+
+example : SlipVerif.Wire6.readMessages 2 (SlipVerif.Wire6.writeAll [[40, 195, 169, 41], [49]]) = some [[40, 195, 169, 41], [49]] := by decide
+example : SlipVerif.Wire6.wireBytes [40, 195, 169, 41] = [48, 48, 48, 48, 48, 52, 40, 195, 169, 41] := by decide
+
 end SlipVerif.Theorems.C03
